@@ -126,6 +126,10 @@ class Ctx:
         lines = []
         for fid, n in sorted(self.known.items()):
             lines.append(f"KNOWN-FINDING: property={self.pid} {fid}: {self.known_what[fid]} (reproduced {n}x)")
+        # every OPEN finding listed for this property gets its line, also when this run's sample did not reach it
+        for f in self.findings:
+            if f.get("status", "open") == "open" and f.get("property") == self.pid and f["id"] not in self.known and not self.selftest:
+                lines.append(f"KNOWN-FINDING: property={self.pid} {f['id']}: {f['what']} (listed; not reached by this run's sample)")
         seen = {}
         for v in self.violations:
             key = (v.get("api"), v.get("clause"), jhash(v.get("features")))
